@@ -25,11 +25,4 @@ for id in "$@"; do
   echo "$out" | grep -A1 VIOLATION | grep -v "VIOLATION\|^--" | head -2 | cut -c1-300
 done
 # restore generated files to the real tree
-/venv/bin/python tools/py2lean.py --repo /repo --out lean/PGM/Generated >/dev/null 2>&1
-/venv/bin/python tools/py2flow.py --repo /repo --out lean/PGM/Generated >/dev/null 2>&1
-/venv/bin/python tools/py2dom.py --repo /repo --out lean/PGM/Generated >/dev/null 2>&1
-/venv/bin/python tools/py2cv.py --repo /repo --out lean/PGM/Generated >/dev/null 2>&1
-/venv/bin/python tools/py2factor.py --repo /repo --out lean/PGM/Generated >/dev/null 2>&1
-/venv/bin/python tools/py2total.py --repo /repo --out lean/PGM/Generated >/dev/null 2>&1
-/venv/bin/python tools/py2gm.py --repo /repo --out lean/PGM/Generated >/dev/null 2>&1
-/venv/bin/python tools/py2inf.py --repo /repo --out lean/PGM/Generated >/dev/null 2>&1
+for t in tools/py2*.py; do /venv/bin/python "$t" --repo /repo --out lean/PGM/Generated >/dev/null 2>&1; done
